@@ -305,6 +305,7 @@ func c06DynamicBounds(c *runner.Ctx) {
 func c06Case(c *runner.Ctx, idx uint64) {
 	if idx == 0 {
 		c06Bounds(c)
+		c06LiteralBoundary(c)
 		c06DynamicBounds(c)
 	}
 	r := c.R
@@ -464,4 +465,34 @@ func errOf(o Outcome) error {
 		return o.Err
 	}
 	return fmt.Errorf("panic: %v", o.Panic)
+}
+
+// c06LiteralBoundary: literal ranges of exactly the default budget and one
+// more element, compiled with and without the optimizer (a range folded into
+// a constant at compile time is not charged at run time, so the fold must
+// stop below the budget).
+func c06LiteralBoundary(c *runner.Ctx) {
+	save := vm.MemoryBudget
+	defer func() { vm.MemoryBudget = save }()
+	vm.MemoryBudget = defaultBudget
+	for _, src := range []string{"len(1..1000000)", "len(0..999999)", "len(1..1000001)", "len(-5..999994)", "[len(1..1000000)][0]"} {
+		for _, opt := range []bool{true, false} {
+			c.Begin(fmt.Sprintf("literal-boundary: %s optimize=%v", src, opt))
+			p, co := SafeCompile(src, expr.Optimize(opt))
+			c.Eval(1)
+			if co.Failed() {
+				c.Count("bound_cases_rejected", 1)
+				continue
+			}
+			o := SafeRun(p, nil)
+			c.Eval(1)
+			c.Count("literal_boundary_cases", 1)
+			cas := map[string]interface{}{"source": src, "budget": defaultBudget, "optimize": opt, "real": o.String()}
+			if o.Panic != nil {
+				c.Violate("run-panic", fmt.Sprint(o.Panic), cas)
+			} else if o.Err == nil {
+				c.Violate("over-budget-run-completed:literal-range-at-default-budget", "a literal range of at least the default budget completed: "+o.String(), cas)
+			}
+		}
+	}
 }
